@@ -250,8 +250,7 @@ def check_stored_as_read(ctx, S, RULE):
     rs, vis, asref = _rule_fns(fx, S)
     # ---- D4 decoded values stored unmodified
     if len(vis) == 1:
-        vb = body_of(fx, vis[0]["key"])
-        ctx.touch_body(vb)
+        vb = ctx.region(None, policy="private", key=vis[0]["key"])
         n = 0
         for i, blk in enumerate(vb.blocks):
             if i not in vb.reach:
